@@ -10,7 +10,7 @@ P1 the out-of-range objno is rejected before the builder sizes the objectives,
 F1 option plumbing; F2 the objno echoed in the .sol file; P2 file order.
 """
 import itertools, re
-from ..cfg import eval_cases, norm_fact_nodes, reach_calls, expand_locals, norm_facts, xrender, Facts, kids, strip, walk, cv, render, short_loc, call_args, TRANSPARENT
+from ..cfg import eval_cases, norm_fact_nodes, reach_calls, expand_locals, norm_facts, xrender, Facts, kids, strip, walk, cv, render, short_loc, call_args, TRANSPARENT, MiniInt
 from ..facts import export_many, AnalysisBroken
 from .. import units
 
@@ -324,12 +324,41 @@ def run(rep, ctx):
                      ("mp::BasicSolver::GetObjNo", "abs(objno_)")):
         f = one(qn)
         got = (ret(f) or "").replace("std::", "")
+        if got != want:
+            # written differently: the accessor is evaluated for stored option values of either sign and both multiobj settings
+            wantf = {"abs(objno_)": lambda o, m: abs(o), "solver_.objno_specified()": lambda o, m: abs(o), "objno_ >= 0": lambda o, m: int(o >= 0),
+                     "multiobj_ && objno_ < 0": lambda o, m: int(bool(m) and o < 0), "solver_.multiobj()": lambda o, m: int(bool(m) and o < 0)}[want]
+            diff = []
+            for o_ in (-7, -1, 0, 1, 4):
+                for m_ in (0, 1):
+                    box = {}
+
+                    def atom(t_, n_, env_, o_=o_, m_=m_):
+                        t_ = t_.replace("this->", "")
+                        if t_ == "objno_":
+                            return o_
+                        if t_ == "multiobj_":
+                            return m_
+                        if n_["k"] == "CallExpr" and (n_.get("callee") or "") in ("std::abs", "abs") and len(call_args(n_)) == 1:
+                            return abs(box["mi"].expr(call_args(n_)[0], env_, 0))
+                        return None
+                    mi = MiniInt(F, atom)
+                    box["mi"] = mi
+                    try:
+                        v_ = mi.call(f, [("obj", None, None)] * len(f.params))
+                    except AnalysisBroken as e_:
+                        v_ = "not evaluable (%s)" % str(e_)[:60]
+                    if v_ != wantf(o_, m_):
+                        diff.append("objno_=%d multiobj_=%d: %s" % (o_, m_, v_))
+            f1.check(not diff, "returns|%s" % qn.split("::")[-2] + "::" + qn.split("::")[-1], short_loc(f.loc),
+                     "%s has the values of %s" % (qn, want), "%s returns `%s`, which is not `%s`: %s" % (qn, got, want, diff[:2]))
+            continue
         f1.check(got == want, "returns|%s" % qn.split("::")[-2] + "::" + qn.split("::")[-1], short_loc(f.loc),
                  "%s returns %s" % (qn, got), "%s returns `%s`, expected `%s`" % (qn, got, want))
     so = one("mp::BasicSolver::SetObjNo")
     st = [x for x in so.walk() if x["k"] == "BinaryOperator" and x.get("op") == "=" and render(kids(x)[0]) == "objno_"]
     okso = len(st) == 1 and render(kids(st[0])[1]) == "value" and \
-        any(pol is False and render(so.nodes[cid]) == "value < 0" for cid, pol in so.cfg.facts_at(st[0]))
+        ("value<0", False) in norm_facts(so, st[0], canon=True)
     f1.check(okso, "SetObjNo-stores-nonnegative", short_loc(so.loc), "SetObjNo stores the value after rejecting value < 0")
     ou = one("mp::BasicSolver::objno_used")
     def ou_atom(t, n):
